@@ -336,7 +336,8 @@ def plan_C14(b, tier, seed):
         t.append((lambda thr=thr, k=k: trace_validate(b, "pairing", "Trace_Pairing", "bls12_381", seed + k, 120, threads=thr, label="B:pairing:bls12_381:threads%d" % thr)))
         t.append((lambda thr=thr, k=k: trace_validate(b, "field", "Trace_Field", "bls12_381_fr", seed + k, 800, threads=thr, label="B:field:bls12_381_fr:threads%d" % thr)))
         t.append((lambda thr=thr, k=k: trace_validate(b, "curve", "Trace_Curve", "bls12_381_g1", seed + k, 300, rec_args=["--profile", "group"], threads=thr, label="B:curve:bls12_381_g1:threads%d" % thr)))
-        t.append(B_polybig(b, ["bls12_381_fr", "bn384_fq"][k % 2], seed + k, 50, 12, threads=thr))
+        t.append(B_polybig(b, "bls12_381_fr", seed + k, 70, 12, threads=thr))
+        t.append(B_polybig(b, "bn384_fq", seed + k, 60, 12, threads=thr))
         t.append((lambda thr=thr, k=k: trace_validate(b, "curve", "Trace_Curve", ["bls12_381_g1", "ed_on_bls12_381", "bls12_381_g2"][k % 3], seed + k, 40, rec_args=["--profile", "msm"], threads=thr, label="B:curve:msm:threads%d" % thr)))
     return t
 FEATURES = {"C14": ("parallel",)}
